@@ -87,6 +87,47 @@ pub fn all() -> Vec<Prop> {
             ],
             batches: vec![Batch { name: "program", scenario: crate::scen_e::c11_program, quick: 40000, thorough: 600000, varies: "sink chunking/EINTR/hard faults inside save_to x crash-and-reload as an operation x loader schedule and source chunking on reload x operation programs" }],
         },
+        Prop {
+            id: "C02",
+            level: "exploration",
+            rule: "one case = one abstract document (0-2 update revisions) emitted by the independent reference writer with every syntactic choice of ISO 32000-1 7.2-7.5 drawn from the seed (white-space, comments, EOLs, string/name escapes, number spellings, object order, multi-subsection tables, xref streams of any W/Index, Flate + PNG predictors, object streams, indirect Length, leading junk), loaded through a chunking/interrupting source under 2-3 completion orders and by the sequential build; \
+                   distinct = distinct file bytes; non-trivial = at least one object. The writer is itself cross-checked against the strict reader on every file (disagreement = harness error)",
+            assumptions: &[
+                "the reference writer emits only standard-conforming files (kept honest by the independent strict reader on every generated file)",
+                "rules R1-R3 and R6 (an indirect stream Length may come back as the resolved integer); structural objects (xref streams, ObjStm containers) are allowed extras",
+                "hybrid-reference files and revisions that free objects are outside the domain",
+            ],
+            batches: vec![Batch { name: "foreign", scenario: crate::scen_b::c02_foreign, quick: 30000, thorough: 500000, varies: "source read chunking/EINTR x loader completion order x parallel/sequential reader (producer syntax is workload from a simulated peer)" }],
+        },
+        Prop {
+            id: "C08",
+            level: "exploration",
+            rule: "one case = one history rich in object streams from the reference writer, as the valid image and 1-3 storage-fault-corrupted variants; each image is loaded under 8 (quick) / 24 (thorough) schedules (in-order, reverse, rotations, random permutations of the parallel section; simulated pool sizes 1..16) and by the sequential build; the full-state digest or the error must be identical everywhere; \
+                   distinct = distinct file bytes; non-trivial = at least two object streams or two objects. Reach is reported as the number of distinct relative completion orders of the ObjStm containers actually executed",
+            assumptions: &[
+                "Mode P of the rayon shim (closure-granular permutation) is exact for the code as it stands: every closure enters at most one critical section (DESIGN.md 2.2)",
+                "the fidelity batch (real rayon, real pools) is not a deciding step: mismatches are counted and reported, never a VIOLATION",
+            ],
+            batches: vec![
+                Batch { name: "schedules", scenario: crate::scen_b::c08_schedules, quick: 6000, thorough: 60000, varies: "completion order of the parallel loading phase x nested section order x simulated pool size x storage faults on the stored image" },
+                Batch { name: "fidelity", scenario: crate::scen_b::c08_fidelity, quick: 150, thorough: 1500, varies: "(stub fidelity, non-deciding) real rayon pools of 1,2,4,8,16 threads" },
+            ],
+        },
+        Prop {
+            id: "C07",
+            level: "exploration",
+            rule: "one case = one revision history: (foreign) base + 0-4 update revisions written by the reference writer in table or stream style with updated objects plain or in new object streams, every prefix loaded under a drawn schedule and by the sequential build; (lopdf) a lopdf-saved or foreign base extended 1-3 times through IncrementalDocument (load through a chunking source, edit, save through a chunking sink), after every step: prefix bytes unchanged, appended part = exactly the touched objects + one section whose Prev is the previous startxref (strict reader), previous-revisions view unchanged, result loads (parallel + sequential) to the model and takes another update; \
+                   distinct = distinct image hashes; non-trivial = at least one update revision",
+            assumptions: &[
+                "reference writer kept honest by the strict reader on every prefix",
+                "a foreign revision appended to a lopdf-written file is not generated (the reference writer writes whole histories)",
+                "bases with bytes before the header are excluded from the IncrementalDocument legs",
+            ],
+            batches: vec![
+                Batch { name: "foreign-history", scenario: crate::scen_c::c07_foreign_history, quick: 12000, thorough: 200000, varies: "revision histories x who wrote each revision x loader completion order x source chunking" },
+                Batch { name: "lopdf-updates", scenario: crate::scen_c::c07_lopdf_updates, quick: 12000, thorough: 200000, varies: "IncrementalDocument load/edit/save cycles x sink and source chunking/EINTR x loader completion order" },
+            ],
+        },
     ]
 }
 
